@@ -25,6 +25,7 @@ fn main() {
         Some("c08-resolve") => more::c08_resolve(),
         Some("c11-validate") => more::c11_validate(),
         Some("c08-flatten") => more::c08_flatten(),
+        Some("c10-paths") => more::c10_paths(),
         _ => {
             eprintln!("usage: vreplay fmt-search <maxlen> <seed> | fmt-one <string> | fmt-repeat <string> <count>");
             2
